@@ -697,6 +697,16 @@ def _gen_slice(repo, blk, gen):
         if not hits2:
             raise LostAnchor(f'{a["file"]}:{a["name"]}: through `{blk["through"]}` not found after from')
         s1 = hits2[0] + n2 - 1
+        if blk.get('through_block_after'):
+            # ... and on to the `}` closing the first `{` block that opens after the `through` anchor (a loop header and its body)
+            k = s1 + 1
+            depth = 0
+            while not (src.s[k].text == '{' and depth == 0):
+                if src.s[k].text in rtok.OPEN: depth += 1
+                elif src.s[k].text in rtok.CLOSE: depth -= 1
+                k += 1
+                if k > j: raise LostAnchor(f'{a["name"]}: block after `through` not found')
+            s1 = rtok.match_close(src.s, k)
     for ext in blk.get('extend_if_next', []):
         # if the tokens right after the slice are exactly `ext` (e.g. `.unwrap()`), they belong to the slice
         texts = rtok.sig_texts(ext)
@@ -856,7 +866,7 @@ def generate(repo, template_text, variables=None):
                 blk.setdefault('after_all', []).append((frm.strip(), to.strip()))
             elif d in ('strip', 'keep_attrs', 'from', 'through', 'through_stmt', 'from_nth', 'attr'):
                 blk[d] = rest
-            elif d in ('through_close', 'inner', 'make_pub', 'through_block', 'until_enclosing_close', 'extend_else', 'rest_of_fn_after_stmt'):
+            elif d in ('through_close', 'inner', 'make_pub', 'through_block', 'until_enclosing_close', 'extend_else', 'rest_of_fn_after_stmt', 'through_block_after'):
                 blk[d] = True
             else:
                 raise TemplateError(f'line {i+1}: unknown directive {d}')
